@@ -163,12 +163,22 @@ struct Ctx {
     // --c15 1 : the harness is being run (sanitised) for property C15: functional verdicts are muted, and every
     // library assertion / unexpected exception becomes a violation identified by its call site
     bool c15() const { return opt.count("c15") > 0; }
+    // call-site signature of a failed library assertion: expression, file and enclosing function -- NOT the line number,
+    // which moves whenever an unrelated line is added above it (that made KF-C15-1 fire as an alarm after fix 07e9573)
     static std::string assert_sig(const std::string &what) {
         size_t e = what.find("expression: "), l = what.find("at line "), f = what.find(" of ", l == std::string::npos ? 0 : l);
         if (e == std::string::npos || l == std::string::npos || f == std::string::npos) return what.substr(0, 140);
-        std::string expr = what.substr(e + 12, what.find('\n', e) - e - 12), line = what.substr(l + 8, f - l - 8), file = what.substr(f + 4, what.find('\n', f) - f - 4);
+        std::string expr = what.substr(e + 12, what.find('\n', e) - e - 12), file = what.substr(f + 4, what.find('\n', f) - f - 4);
         size_t sl = file.rfind('/'); if (sl != std::string::npos) file = file.substr(sl + 1);
-        return expr.substr(0, 110) + " @ " + file + ":" + line;
+        std::string fn = "?";
+        size_t in = what.find("in: ");
+        if (in != std::string::npos) {
+            std::string sigl = what.substr(in + 4, what.find('\n', in) - in - 4);
+            size_t par = sigl.find('('); if (par != std::string::npos) sigl = sigl.substr(0, par);
+            size_t sp = sigl.rfind(' '); fn = sp == std::string::npos ? sigl : sigl.substr(sp + 1);
+            while (!fn.empty() && (fn[0] == '*' || fn[0] == '&')) fn = fn.substr(1);
+        }
+        return expr.substr(0, 110) + " @ " + file + " in " + fn;
     }
     void library_abort(const std::string &what, const std::string &desc) {
         std::string sig = assert_sig(what);
